@@ -617,6 +617,39 @@ def runPath (loc : List String) (float : Bool) (returnsNode : Bool) (s : PathSt)
     PathVerdict :=
   runPathC loc float returnsNode s [] evs
 
+/-- `ok`, or nothing worse than an array that is not freed (reported apart: `pathArraysFreed`) -/
+def PathVerdict.refsOk : PathVerdict → Bool
+  | .ok => true
+  | .arrayLeak _ => true
+  | .bad _ _ => false
+
+def pathBalanced (loc : List String) (m : CMethod) (p : CPath) : Bool :=
+  (runPath loc false m.returnsNode [] p.events).refsOk
+
+def pathNoFloat (loc : List String) (m : CMethod) (p : CPath) : Bool :=
+  (runPath loc true m.returnsNode [] p.events).refsOk
+
+/-- every C array allocated on the path is freed on it -/
+def pathArraysFreed (loc : List String) (m : CMethod) (p : CPath) : Bool :=
+  -- (a path without `alloc` has nothing to free: not run again)
+  !p.events.any (fun e => match e with | .alloc .. => true | _ => false) ||
+  match runPath loc false m.returnsNode [] p.events with
+  | .arrayLeak _ => false
+  | _ => true
+
+/-- the path ends by raising `exc` -/
+def endsInRaiseOf (exc : String) : List CEv → Bool
+  | [] => false
+  | [.raise e] => e == exc
+  | [.raiseIn site _] => site == exc
+  | _ :: r => endsInRaiseOf exc r
+
+/-- the path assumes `x.ref <= 0` although a reference on `x` is held: it cannot be taken -/
+def pathInfeasible (loc : List String) (m : CMethod) (p : CPath) : Bool :=
+  p.events.any (fun e => match e with | .refNonPos _ => true | _ => false) &&
+  runPath loc false m.returnsNode [] p.events == .ok &&
+  runPath loc false m.returnsNode [] (p.events.filter fun e => match e with | .refNonPos _ => false | _ => true) != .ok
+
 /-! #### exceptions raised inside callees
 
 A call that may raise a Python exception (classified by the reader from the callee's NAME: anything
@@ -662,48 +695,25 @@ def ContKind.name : ContKind → String
 /-- what the function still owns when a path ends: per node (in the order of their numbers) the
 references held; per own container that still holds references (or was handed to a function of the
 module, which may have stored some) one entry; per array that is not freed one entry -/
+def summaryOf (evs : List CEv) (s : PathSt) (cs : List ContSt) : List (String × Int) :=
+  let cs' := cs.foldr insertCont []
+  ((sortById s).filter (·.held != 0)).map (fun n => (nodeDescr n.id evs, n.held)) ++
+    ((cs'.filter fun k => k.kind != .param && (!k.owned.isEmpty || k.mayHold)).map
+      fun k => ("container " ++ k.kind.name, (0 : Int))) ++
+    ((cs'.filter fun k => k.kind == .array && !k.freed).map fun _ => ("array not freed", (0 : Int)))
+
 def exitSummary (loc : List String) (m : CMethod) (p : CPath) : Option (List (String × Int)) :=
   match runPathS loc false m.returnsNode [] [] [] p.events with
   | .stop _ => none
-  | .fin s cs =>
-    let cs' := cs.foldr insertCont []
-    some (((sortById s).filter (·.held != 0)).map (fun n => (nodeDescr n.id p.events, n.held)) ++
-      ((cs'.filter fun k => k.kind != .param && (!k.owned.isEmpty || k.mayHold)).map
-        fun k => ("container " ++ k.kind.name, (0 : Int))) ++
-      ((cs'.filter fun k => k.kind == .array && !k.freed).map fun _ => ("array not freed", (0 : Int))))
+  | .fin s cs => some (summaryOf p.events s cs)
 
-/-- `ok`, or nothing worse than an array that is not freed (reported apart: `pathArraysFreed`) -/
-def PathVerdict.refsOk : PathVerdict → Bool
-  | .ok => true
-  | .arrayLeak _ => true
-  | .bad _ _ => false
-
-def pathBalanced (loc : List String) (m : CMethod) (p : CPath) : Bool :=
-  (runPath loc false m.returnsNode [] p.events).refsOk
-
-def pathNoFloat (loc : List String) (m : CMethod) (p : CPath) : Bool :=
-  (runPath loc true m.returnsNode [] p.events).refsOk
-
-/-- every C array allocated on the path is freed on it -/
-def pathArraysFreed (loc : List String) (m : CMethod) (p : CPath) : Bool :=
-  -- (a path without `alloc` has nothing to free: not run again)
-  !p.events.any (fun e => match e with | .alloc .. => true | _ => false) ||
-  match runPath loc false m.returnsNode [] p.events with
-  | .arrayLeak _ => false
-  | _ => true
-
-/-- the path ends by raising `exc` -/
-def endsInRaiseOf (exc : String) : List CEv → Bool
-  | [] => false
-  | [.raise e] => e == exc
-  | [.raiseIn site _] => site == exc
-  | _ :: r => endsInRaiseOf exc r
-
-/-- the path assumes `x.ref <= 0` although a reference on `x` is held: it cannot be taken -/
-def pathInfeasible (loc : List String) (m : CMethod) (p : CPath) : Bool :=
-  p.events.any (fun e => match e with | .refNonPos _ => true | _ => false) &&
-  runPath loc false m.returnsNode [] p.events == .ok &&
-  runPath loc false m.returnsNode [] (p.events.filter fun e => match e with | .refNonPos _ => false | _ => true) != .ok
+/-- one run of the path: `none` when it is balanced (or cannot be taken), else what is still owned
+(`refused` when a `finally` / `except` block on the way out is refused) -/
+def exitLeak (refused : List (String × Int)) (loc : List String) (m : CMethod) (p : CPath) :
+    Option (List (String × Int)) :=
+  match runPathS loc false m.returnsNode [] [] [] p.events with
+  | .stop v => if v.refsOk then none else some refused
+  | .fin s cs => if (endOkC s cs).refsOk then none else some (summaryOf p.events s cs)
 
 /-! ### the handle: one reference in, one reference out -/
 
